@@ -66,6 +66,11 @@ def make_inputs(r, tier, fgs):
         else:
             txt, kind = G.bad_string(r), "soup"
         items.append({"iupac": txt, "kw": options(r), "kind": kind})
+    # single residues with default options (the plainest call): every sugar of the panel x modifications that leave a
+    # placeholder or a hypervalent atom behind
+    for s_ in (SUGARS if tier == "thorough" else r.sample(SUGARS, 12) + ["Fuc", "Rha", "Neu5Ac", "Kdo", "GlcNAc"]):
+        for m_ in ([f"{p_}d" for p_ in (3, 5, 6)] + ["A", "2I2Ac", "6d6S", "1F1Me"] if tier == "thorough" else r.sample([f"{p_}d" for p_ in (3, 5, 6)] + ["A", "2I2Ac", "6d6S"], 3)):
+            items.append({"iupac": s_ + m_, "kw": {}, "kind": "single-default"})
     # depth: ring-closure labels run out at 100 nested residues
     for d in ([30, 99, 101] if tier == "quick" else [30, 60, 98, 99, 100, 101, 120]):
         items.append({"iupac": "Gal(b1-4)" * d + "Glc", "kw": {}, "kind": "deep"})
